@@ -54,6 +54,8 @@ type PQ struct {
 	FlushOK       int // successful explicit flushes
 	Concurrent    bool // producer and consumer are different tasks
 	AfterOpen     func() // called after file and queue have been opened
+	rdSnapLB      int    // events certainly flushed when the reader transaction began
+	AckedN        int    // size of the last successful ACK
 }
 
 func NewPQ(e *Env, d *simdisk.Disk, cfg Cfg) *PQ {
@@ -210,10 +212,11 @@ func (p *PQ) apply(op Op) bool {
 		if p.OnProducer != nil {
 			p.OnProducer(true, before, before+1)
 		}
-		err := p.W.Next()
-		// the event is complete in the buffer even if the implicit flush failed
+		// the event is complete once Next is called (an implicit flush inside Next
+		// may publish it; it stays complete in the buffer even if that flush fails)
 		p.Sizes = append(p.Sizes, p.curBytes)
 		p.curBytes = 0
+		err := p.W.Next()
 		if p.OnProducer != nil {
 			p.OnProducer(false, before, before+1)
 		}
@@ -246,7 +249,11 @@ func (p *PQ) apply(op Op) bool {
 		if p.R == nil || p.rdActive {
 			return false
 		}
-		if err := p.R.Begin(); err != nil {
+		// the reader works on the snapshot of its read transaction: everything
+		// flushed before Begin was invoked must be visible
+		p.rdSnapLB = p.flushedLB
+		err := p.R.Begin()
+		if err != nil {
 			p.fail("reader-error", "Reader.Begin failed: %v", err)
 			return true
 		}
@@ -279,8 +286,8 @@ func (p *PQ) apply(op Op) bool {
 			p.rdCur = -1
 		}
 		if l == 0 {
-			if p.rdIdx < p.flushedLB {
-				p.fail("missing-event", "Reader.Next reports an empty queue, but event %d of %d flushed events has not been delivered yet", p.rdIdx, p.flushedLB)
+			if p.rdIdx < p.rdSnapLB {
+				p.fail("missing-event", "Reader.Next reports an empty queue, but event %d of %d events flushed before the reader transaction began has not been delivered yet", p.rdIdx, p.rdSnapLB)
 			}
 			return true
 		}
@@ -348,6 +355,7 @@ func (p *PQ) apply(op Op) bool {
 		err := p.Q.ACK(uint(n))
 		if err == nil {
 			p.acked += n
+			p.AckedN = n
 		}
 		if p.OnACK != nil {
 			p.OnACK(false, n)
